@@ -164,6 +164,8 @@ STEP_OPS = [
     ("clear_port", "vk_st_clear_port", (0,), (0,), {"OP_CLEAR_PORT": 1}),
     ("clear_search", "vk_st_clear_search", (0,), (0,), {"OP_CLEAR_SEARCH": 1}),
     ("clear_hash", "vk_st_clear_hash", (0,), (0,), {"OP_CLEAR_HASH": 1}),
+    ("clear_pathname", "vk_st_clear_pathname", (0,), (0,), {"OP_CLEAR_PATHNAME": 1}),
+    ("update_search", "vk_st_update_base_search_enc", (2,), (1, 2, 3), {"OP_UPDATE_SEARCH_ENC": 1}),
     ("set_username", "vk_st_set_username", (0, 1), (0, 1, 2), {"OP_SET_USERINFO": "F_USER"}),
     ("set_password", "vk_st_set_password", (0, 1), (0, 1, 2), {"OP_SET_USERINFO": "F_PASS"}),
     ("set_port", "vk_st_set_port", (0, 2), (0, 1, 2, 3, 5), {"OP_SET_PORT": 1}),
@@ -183,7 +185,7 @@ def steps(tier, ops=None, with_limit=False, tag="", pick=None, cfg="default"):
         if ops and name not in ops:
             continue
         heavy = name in HEAVY_OPS
-        for n in lens(tier, (9,), (6, 8, 10, 12) if not heavy else (8,)):
+        for n in lens(tier, (9,) if name != "update_search" else (8,), (6, 8, 10, 12) if not heavy else (8,)):
             for m in lens(tier, qm, tm if not heavy else tuple(x for x in tm if x in (0, 2))):
                 if tier == Q and pick is not None and (name, m) not in pick:
                     continue
@@ -285,8 +287,8 @@ def inv_lemma(tier):
 
 
 # quick-tier selections (each is decided in < ~4 min; the heavier setters are thorough-tier)
-PICK_C07 = {("clear_port", 0), ("clear_search", 0), ("clear_hash", 0), ("set_port", 2), ("set_username", 1)}
-PICK_C03 = {("set_username", 0), ("set_username", 1), ("set_password", 1), ("set_port", 0), ("set_port", 2)}
+PICK_C07 = {("clear_port", 0), ("clear_search", 0), ("clear_hash", 0), ("clear_pathname", 0), ("update_search", 2), ("set_port", 2), ("set_username", 1)}
+PICK_C03 = {("set_username", 0), ("set_username", 1), ("set_password", 1), ("set_port", 0), ("set_port", 2), ("update_search", 2)}
 PICK_C09 = {("set_username", 1), ("set_password", 1), ("set_port", 2)}
 PICK_C19 = {("set_port", 2), ("set_password", 1), ("clear_port", 0)}
 
@@ -296,7 +298,7 @@ def prop_C07(tier):
 
 
 def prop_C03(tier):
-    return steps(tier, ops=("set_username", "set_password", "set_port", "set_search", "set_hash", "set_pathname", "set_protocol"), pick=PICK_C03)
+    return steps(tier, ops=("set_username", "set_password", "set_port", "set_search", "set_hash", "set_pathname", "set_protocol", "update_search"), pick=PICK_C03)
 
 
 def prop_C09(tier):
@@ -316,7 +318,7 @@ def prop_C02(tier):
     """memory safety / no-throw / termination: CBMC's pointer, bounds, shift, division and overflow instrumentation, the
     'noreturn reached' assertions and the unwinding assertions of these obligations (exact-size input objects)"""
     sc = [o for o in scanners(tier) if any(f"_n{k}" == o.name[o.name.rfind("_n"):] for k in (15, 16, 17, 31, 32, 33)) or tier != Q]
-    return sc + pct_decode(tier) + [o for o in ipv4_kernels(tier) if "fast" in o.name or "number" in o.name] + steps(tier, pick={("clear_port", 0), ("set_port", 2)})
+    return sc + pct_decode(tier) + [o for o in ipv4_kernels(tier) if "fast" in o.name or "number" in o.name] + steps(tier, pick={("clear_port", 0), ("clear_pathname", 0), ("set_port", 2)})
 
 
 def canparse(tier):
@@ -362,7 +364,9 @@ def twinsteps(tier):
 def prop_C04(tier):
     # lock-step setter twins (harness/twinstep.c) were built and measured: even the identity step (build the ada::url from
     # the aggregator's getters and serialise it) runs out of 16 GB -> attempted in the thorough tier only, at the smallest size
-    return twins(tier) + shorten(tier) + [x for x in twinsteps(tier) if tier != Q and x.name in ("twinstep_nop_n6_m0", "twinstep_set_port_n6_m2")]
+    # the aggregator-only editors checked against the Standard's slot semantics (ada::url keeps these components as plain fields)
+    agg = steps(tier, ops=("update_search", "clear_pathname"), pick={("update_search", 2), ("clear_pathname", 0)})
+    return twins(tier) + shorten(tier) + agg + [x for x in twinsteps(tier) if tier != Q and x.name in ("twinstep_nop_n6_m0", "twinstep_set_port_n6_m2")]
 
 
 def prop_C12(tier):
